@@ -206,6 +206,7 @@ func forEachC01Input(w *W, emit emitFn) {
 	c01E3(w, emit)
 	c01E4(w, emit)
 	c01E5(w, emit)
+	c01E6(w, emit)
 }
 
 func c01Body(w *W) {
@@ -454,6 +455,51 @@ func c01E4(w *W, emit emitFn) {
 		}
 	}
 	w.Sample(fmt.Sprintf("E4 sample (len %d): %q…%q", len(in), in[:12], in[len(in)-24:]))
+}
+
+// E6: white space around the document in every geometry relative to a block and to the
+// index-buffer flush: the document's last structural on every index around the flush
+// threshold, 0..129 bytes of white space in front and 0..200 behind (incl. more than one
+// whole 64-byte block of it), with and without a stray byte after the white space.
+func c01E6(w *W, emit emitFn) {
+	_, flushAt, _ := simdjson.VerifGeometry()
+	leads := []int{0, 1, 17, 63, 64, 65, 129}
+	trails := []int{0, 1, 31, 63, 64, 65, 100, 127, 128, 129, 200}
+	w.Note(fmt.Sprintf("E6: dense documents whose closing bracket is structural number %d..%d and %d..%d, x %d amounts of leading and %d amounts of trailing white space (0..200 bytes, mixed space/LF/tab/CR), valid and with one stray byte behind the white space", flushAt-40, flushAt+40, 2*flushAt-40, 2*flushAt+40, len(leads), len(trails)))
+	ws := func(n int) []byte {
+		b := make([]byte, n)
+		for i := range b {
+			b[i] = " \n\t\r"[(i*7+n)%4]
+		}
+		return b
+	}
+	var in []byte
+	for _, base := range []int{flushAt, 2 * flushAt} {
+		for n := base - 40; n <= base+40; n++ {
+			if !w.Mine() {
+				continue
+			}
+			body := append(densePrefix(n-1), '0', ']')
+			for _, l := range leads {
+				for _, t := range trails {
+					for stray := 0; stray < 2; stray++ {
+						in = append(in[:0], ws(l)...)
+						in = append(in, body...)
+						in = append(in, ws(t)...)
+						if stray == 1 {
+							in = append(in, ',')
+						}
+						w.res.States++
+						w.res.Transitions++
+						emit(in, nil, "C01-E6-edge-whitespace")
+					}
+				}
+			}
+			if w.Expired() || w.TooManyViolations() {
+				return
+			}
+		}
+	}
 }
 
 // E5: every token sequence <= 2 over the core alphabet at the start, in the middle and at
